@@ -91,7 +91,7 @@ func readFaultFamily(es []entry, budget time.Duration) mc.Family {
 	}
 	return mc.Family{
 		Name: "read-fault-at-every-offset", Items: len(items), Budget: budget,
-		Rule: fmt.Sprintf("%d corpus inputs x a read fault (sentinel error) at EVERY byte offset k in 0..len (%d offsets) x %d fault styles (full reads up to k then the error alone; one byte at a time; the error in the same call as the last good bytes; the same with 7-byte reads; a transient error reported once, alone or together with data, after which the reader carries on) x {plain, seekable (fonts)}; item = block of %d offsets; non-trivial = the fault was delivered to the library", len(es), total, len(faultStyles), block),
+		Rule: fmt.Sprintf("%d corpus inputs x a read fault (sentinel error) at EVERY byte offset k in 0..len (%d offsets) x %d fault styles (full reads up to k then the error alone; one byte at a time; the error in the same call as the last good bytes; the same with 7-byte reads; a transient error reported once, alone or together with data, after which the reader carries on) x 5 error values (a sentinel, io.ErrUnexpectedEOF, an error wrapping io.EOF, io.ErrNoProgress, io.ErrClosedPipe; PFB inputs and transient faults: sentinel only) x {plain, seekable (fonts)}; item = block of %d offsets; non-trivial = the fault was delivered to the library", len(es), total, len(faultStyles), block),
 		Body: func(c *mc.Ctx, item int) mc.Verdict {
 			e := es[items[item].e]
 			n := min(block, len(e.in.Data)+1-items[item].first)
@@ -120,6 +120,14 @@ func readFaultFamily(es []entry, budget time.Duration) mc.Family {
 				src.Decide = func(call, want, remaining int) (int, bool) { return 7, false }
 			}
 			src.FailWithData, src.FailOnce = fs.withData, fs.once
+			// what the fault looks like: the sentinel, or an error value that readers
+			// tend to special-case (for inputs whose end the library finds by itself,
+			// i.e. not for PFB streams, where bytes after the end marker are never needed)
+			// (only for faults that persist: "the stream ended unexpectedly" reported
+			// once by a reader that then carries on is not a meaningful answer)
+			if !fs.once && e.kind != "pfb" && !(len(e.in.Data) > 0 && e.in.Data[0] == 0x80) {
+				src.FailErr = faultErrors[c.Choose(len(faultErrors))]
+			}
 			var r io.Reader = src
 			if seek {
 				r = env.SeekSource{Source: src}
@@ -158,6 +166,8 @@ func readFaultFamily(es []entry, budget time.Duration) mc.Family {
 		CrashKey: func(item int) string { e := es[items[item].e]; return "C13:crash:read:" + e.kind + "/" + e.in.Name },
 	}
 }
+
+var faultErrors = []error{env.ErrInjected, io.ErrUnexpectedEOF, fmt.Errorf("read failed: %w", io.EOF), io.ErrNoProgress, io.ErrClosedPipe}
 
 var faultStyles = []struct {
 	name                            string
@@ -257,7 +267,18 @@ func writeCases() []writeCase {
 	tiny.Private.StdHW, tiny.Private.StdVW = 0, 0
 	tiny.Private.BlueValues = []funit.Int16{}
 	fonts["tiny"] = tiny
-	for _, fname := range []string{"sample", "big", "tiny"} {
+	// a font with one glyph whose charstring is far longer than any buffer a
+	// writer might use (600 segments, about 2.5 KiB), so that one Write call of
+	// the encoder spans several flushes
+	long := corpus.SampleFont()
+	lg := long.NewGlyph("longglyph", 700)
+	lg.MoveTo(10, 10)
+	for i := 0; i < 600; i++ {
+		lg.LineTo(float64(10+(i*37)%900), float64(10+(i*91)%800))
+	}
+	lg.ClosePath()
+	fonts["long-charstring"] = long
+	for _, fname := range []string{"sample", "big", "tiny", "long-charstring"} {
 		f := fonts[fname]
 		for _, format := range corpus.Formats {
 			format := format
@@ -314,7 +335,7 @@ func writeFaultFamily(cases []writeCase, budget time.Duration) mc.Family {
 	}
 	return mc.Family{
 		Name: "write-fault-at-every-call-and-offset", Items: len(items), Budget: budget,
-		Rule: fmt.Sprintf("%d writer invocations (3 fonts x {PFA, PFB, binary, no-eexec, WritePDF, default options} and 3 metrics values) x a transient fault at EVERY Write call index (%d calls in total) and a short write + error at EVERY byte offset (%d offsets); each must return a non-nil error; non-trivial = every case", len(cases), nCalls, nBytes),
+		Rule: fmt.Sprintf("%d writer invocations (4 fonts, one of them with a 600-segment glyph, x {PFA, PFB, binary, no-eexec, WritePDF, default options} and 3 metrics values) x a transient fault at EVERY Write call index (%d calls in total) and a short write + error at EVERY byte offset (%d offsets); each must return a non-nil error; non-trivial = every case", len(cases), nCalls, nBytes),
 		Body: func(c *mc.Ctx, item int) mc.Verdict {
 			x := items[item]
 			wc := cases[x.c]
